@@ -11,6 +11,8 @@ import props_obj
 import props_fault
 import props_het
 import props_anyid
+import props_anydata
+import props_c20
 import concengine
 
 SEQ_PLANS = {}
@@ -18,6 +20,7 @@ SEQ_PLANS.update(props_cl.PLANS)
 SEQ_PLANS.update(props_dq.PLANS)
 SEQ_PLANS.update(props_het.PLANS)
 SEQ_PLANS.update(props_anyid.PLANS)
+SEQ_PLANS.update(props_anydata.PLANS)
 
 CUSTOM = {}   # pid -> function(tier, seed) -> exit code   (engines that are not plan-shaped)
 for _pid, _fn in props_conc.PLANS.items():
@@ -140,6 +143,44 @@ def _c10_lists(tier, seed):
 
 
 COMPOSITE = {"C10": [_c10_plan, _c10_lists]}
+def _c08_lists(tier, seed):
+    quick = tier == "quick"
+    c = props_cl.consts(3, 2, lists=2, ops={"a", "r", "v", "cc", "ma", "s", "d", "x"} if quick else {"a", "i", "r", "v", "cc", "ca", "mc", "ma", "s", "d", "x"},
+                        nest={"a", "r", "x"} if quick else {"a", "r", "x", "v"}, jump=())
+    return {"interp": "harness/cl_interp.cpp", "trace_module": "TraceCL",
+            "models": [{"module": "CLImpl", "tag": "lifetime-lists", "constants": c, "invariants": props_cl.INV, "heap": "16g"}],
+            "worlds": [props_cl.world("cl_single_fn", 0, 0), props_cl.world("cl_multi_cb", 1, 1, fraction=0.2, fill="0xFF")],
+            "nontrivial_key": "nested",
+            "rule": "CLImpl with two lists: removal during invocation (pinned callbacks), throwing callbacks, copies, moves, swaps and destruction at any point; "
+                    "TraceCL's ledger: live callback objects = listed callbacks when nothing runs, at most the pinned ones more while invocations run, zero at the end",
+            "assumptions": props_cl.ASSUME}
+
+
+def _c08_queue(tier, seed):
+    quick = tier == "quick"
+    ops = {"al", "rl", "nq", "pa", "po", "pi", "pu", "tk", "cl", "pk", "zz", "x"}
+    return {"interp": "harness/dq_interp.cpp", "trace_module": "TraceDQ",
+            "models": [{"module": "DQImpl", "tag": "lifetime-queue", "invariants": props_dq.INV,
+                        "constants": props_dq.consts(nodes=1, enq=3 if quick else 4, depth=3, ops=ops, nest={"x", "nq", "cl", "tk"})}],
+            "worlds": [props_dq.world("l_val", arg=0), props_dq.world("l_cref_str_multi", arg=1, key=1, threading=1, fraction=0.3, fill="0xFF")],
+            "nontrivial_key": "nested",
+            "rule": "DQImpl with clearEvents / takeEvent / processing calls left by exceptions / recycled slots / destruction of the queue with events still pending "
+                    "('zz'); TraceDQ's payload ledger: live argument objects = queued events when nothing runs, zero after destruction",
+            "assumptions": props_dq.ASSUME}
+
+
+def _c08_objects(tier, seed):
+    p = _c10_plan(tier, seed)
+    p = dict(p)
+    p["models"] = [m for m in p["models"] if m["tag"] in ("queue", "queue-nofilter")]
+    p["worlds"] = [w for w in p["worlds"] if w["name"] in ("o_queue_single_ab", "o_hqueue_multi_ab")]
+    p["defects"] = []
+    p["rule"] = "ObjGen histories (copy / move / assign / swap / destroy of queues with listeners, filters and pending events); TraceObj's ledger is exact at every step"
+    return p
+
+
+COMPOSITE["C08"] = [_c08_lists, _c08_queue, _c08_objects]
+COMPOSITE["C20"] = [(lambda i: (lambda tier, seed: props_c20.plans(tier, seed)[i]))(i) for i in range(4)]
 COMPOSITE["C09"] = [(lambda i: (lambda tier, seed: props_fault.plans(tier, seed)[i]))(i) for i in range(6)]
 
 
